@@ -70,11 +70,17 @@ impl WriteCircuitBreaker {
     }
 
     pub fn should_allow_request(&self) -> bool {
+        #[cfg(sierra_db_sierradb_verif)]
+        sierradb::verif::point("cb.allow.load_state", &[]);
         match self.current_state() {
             CircuitState::Closed => true,
             CircuitState::Open => {
                 // Check if enough time has passed to try recovery
+                #[cfg(sierra_db_sierradb_verif)]
+                sierradb::verif::point("cb.allow.clock", &[]);
                 let now = current_timestamp();
+                #[cfg(sierra_db_sierradb_verif)]
+                sierradb::verif::point("cb.allow.load_lft", &[]);
                 let last_failure = self.last_failure_time.load(Ordering::Acquire);
 
                 if now - last_failure >= self.recovery_timeout.as_millis() as u64 {
@@ -87,6 +93,8 @@ impl WriteCircuitBreaker {
             }
             CircuitState::HalfOpen => {
                 // Allow limited requests to test system recovery
+                #[cfg(sierra_db_sierradb_verif)]
+                sierradb::verif::point("cb.allow.inc_calls", &[]);
                 let current_calls = self.half_open_call_count.fetch_add(1, Ordering::AcqRel);
                 current_calls < self.half_open_max_calls
             }
@@ -94,15 +102,23 @@ impl WriteCircuitBreaker {
     }
 
     pub fn record_success(&self) {
+        #[cfg(sierra_db_sierradb_verif)]
+        sierradb::verif::point("cb.succ.store_lst", &[]);
         self.last_success_time
             .store(current_timestamp(), Ordering::Release);
 
+        #[cfg(sierra_db_sierradb_verif)]
+        sierradb::verif::point("cb.succ.load_state", &[]);
         match self.current_state() {
             CircuitState::Closed => {
                 // Reset failure count on success
+                #[cfg(sierra_db_sierradb_verif)]
+                sierradb::verif::point("cb.succ.reset_fc", &[]);
                 self.failure_count.store(0, Ordering::Release);
             }
             CircuitState::HalfOpen => {
+                #[cfg(sierra_db_sierradb_verif)]
+                sierradb::verif::point("cb.succ.inc_succ", &[]);
                 let successes = self.half_open_success_count.fetch_add(1, Ordering::AcqRel) + 1;
 
                 if successes >= self.half_open_success_threshold {
@@ -118,11 +134,17 @@ impl WriteCircuitBreaker {
     }
 
     pub fn record_failure(&self) {
+        #[cfg(sierra_db_sierradb_verif)]
+        sierradb::verif::point("cb.fail.store_lft", &[]);
         self.last_failure_time
             .store(current_timestamp(), Ordering::Release);
 
+        #[cfg(sierra_db_sierradb_verif)]
+        sierradb::verif::point("cb.fail.load_state", &[]);
         match self.current_state() {
             CircuitState::Closed => {
+                #[cfg(sierra_db_sierradb_verif)]
+                sierradb::verif::point("cb.fail.inc_fc", &[]);
                 let failures = self.failure_count.fetch_add(1, Ordering::AcqRel) + 1;
                 if failures >= self.failure_threshold {
                     self.transition_to_open();
@@ -144,9 +166,15 @@ impl WriteCircuitBreaker {
     }
 
     pub fn estimated_recovery_time(&self) -> Option<Duration> {
+        #[cfg(sierra_db_sierradb_verif)]
+        sierradb::verif::point("cb.est.load_state", &[]);
         match self.current_state() {
             CircuitState::Open => {
+                #[cfg(sierra_db_sierradb_verif)]
+                sierradb::verif::point("cb.est.clock", &[]);
                 let now = current_timestamp();
+                #[cfg(sierra_db_sierradb_verif)]
+                sierradb::verif::point("cb.est.load_lft", &[]);
                 let last_failure = self.last_failure_time.load(Ordering::Acquire);
                 let elapsed = Duration::from_millis(now - last_failure);
 
@@ -175,15 +203,23 @@ impl WriteCircuitBreaker {
     }
 
     fn transition_to_open(&self) {
+        #[cfg(sierra_db_sierradb_verif)]
+        sierradb::verif::point("cb.to.state", &[]);
         self.state
             .store(CircuitState::Open as u8, Ordering::Release);
         // Reset half-open counters
+        #[cfg(sierra_db_sierradb_verif)]
+        sierradb::verif::point("cb.to.calls", &[]);
         self.half_open_call_count.store(0, Ordering::Release);
+        #[cfg(sierra_db_sierradb_verif)]
+        sierradb::verif::point("cb.to.succ", &[]);
         self.half_open_success_count.store(0, Ordering::Release);
     }
 
     fn transition_to_half_open(&self) {
         // Only transition if we're currently Open
+        #[cfg(sierra_db_sierradb_verif)]
+        sierradb::verif::point("cb.tho.cas", &[]);
         let _ = self.state.compare_exchange(
             CircuitState::Open as u8,
             CircuitState::HalfOpen as u8,
@@ -191,25 +227,50 @@ impl WriteCircuitBreaker {
             Ordering::Acquire,
         );
         // Reset half-open counters
+        #[cfg(sierra_db_sierradb_verif)]
+        sierradb::verif::point("cb.tho.calls", &[]);
         self.half_open_call_count.store(0, Ordering::Release);
+        #[cfg(sierra_db_sierradb_verif)]
+        sierradb::verif::point("cb.tho.succ", &[]);
         self.half_open_success_count.store(0, Ordering::Release);
     }
 
     fn transition_to_closed(&self) {
+        #[cfg(sierra_db_sierradb_verif)]
+        sierradb::verif::point("cb.tc.state", &[]);
         self.state
             .store(CircuitState::Closed as u8, Ordering::Release);
         // Reset all counters
+        #[cfg(sierra_db_sierradb_verif)]
+        sierradb::verif::point("cb.tc.fc", &[]);
         self.failure_count.store(0, Ordering::Release);
+        #[cfg(sierra_db_sierradb_verif)]
+        sierradb::verif::point("cb.tc.calls", &[]);
         self.half_open_call_count.store(0, Ordering::Release);
+        #[cfg(sierra_db_sierradb_verif)]
+        sierradb::verif::point("cb.tc.succ", &[]);
         self.half_open_success_count.store(0, Ordering::Release);
     }
 }
 
 fn current_timestamp() -> u64 {
+    #[cfg(sierra_db_sierradb_verif)]
+    if let Some(t) = verif_clock() {
+        return t;
+    }
     SystemTime::now()
         .duration_since(UNIX_EPOCH)
         .unwrap_or_default()
         .as_millis() as u64
+}
+
+/// Clock override for schedule replay (verification builds only).
+#[cfg(sierra_db_sierradb_verif)]
+fn verif_clock() -> Option<u64> {
+    match sierradb::verif::query("cb.clock", u64::MAX) {
+        u64::MAX => None,
+        t => Some(t),
+    }
 }
 
 #[cfg(test)]
